@@ -106,9 +106,18 @@ EdgeRefs == LET s == Asc(LiveE) IN [i \in 1 .. Len(s) |-> ERef(s[i])]
 PerOK(p) ==
     /\ EdgesDirectedOK(p.a, 0, p.eo) /\ EdgesDirectedOK(p.a, 1, p.ei)
     /\ NeighborsDirectedOK(p.a, 0, p.no) /\ NeighborsDirectedOK(p.a, 1, p.ni)
+    /\ EdgesDirectedOK(p.a, 0, p.eo2) /\ NeighborsDirectedOK(p.a, 0, p.no2)      \* edges(a), neighbors(a)
     /\ NeighborsUndirectedOK(p.a, p.nu)
     /\ WalkOK(p.a, 0, p.wo) /\ WalkOK(p.a, 1, p.wi)
     /\ p.nw = QNodeWeight(p.a)
+\* Graph's public accessors to its internals: raw_nodes / raw_edges / into_nodes_edges are the slots in index order,
+\* first_edge + next_edge walk the stored out / in list of a node (most recent first; stored orientation also when undirected)
+RawOK(r) ==
+    LET slots == [i \in DOMAIN ed |-> <<ed[i].s, ed[i].t, ed[i].w>>] IN
+    /\ r.nodes = nd /\ r.ine_nodes = nd
+    /\ r.edges = slots /\ r.ine_edges = slots
+    /\ \A i \in DOMAIN r.co : r.co[i] = ByStamp(Out(i - 1))
+    /\ \A i \in DOMAIN r.ci : r.ci[i] = ByStamp(In(i - 1))
 PairOK(p) ==
     /\ FindEdgeOK(p.a, p.b, p.fe)
     /\ p.ce = (Conn(p.a, p.b) # {})
@@ -131,6 +140,7 @@ ObsOK(o) ==
 
     /\ o.nb = NodeBound /\ o.eb = EdgeBound
     /\ \A i \in DOMAIN o.cn : o.cn[i] = NLive(i - 1)        \* contains_node for 0..bound
+    /\ (IF "raw" \in DOMAIN o THEN RawOK(o.raw) ELSE TRUE)
 
 (* the projection attached to mutating events: st = [nd |-> .., ed |-> <<<<s,t,w>>..>>], the slots up
    to node_bound / edge_bound (-1 = vacant).  The abstract state is canonical (no trailing
